@@ -76,3 +76,4 @@ Definition FloatA : Arith := {|
   ltb := PrimFloat.ltb; leb := PrimFloat.leb; eqb := PrimFloat.eqb;
   ofZ := fofZ;
 |}.
+Canonical Structure FloatA.
